@@ -2,13 +2,13 @@ package sym
 
 import (
 	"bufio"
-	"sync"
 	"fmt"
 	"io"
 	"os"
 	"os/exec"
 	"strconv"
 	"strings"
+	"sync"
 	"time"
 )
 
@@ -25,7 +25,7 @@ func (r Result) String() string { return [...]string{"unsat", "sat", "unknown"}[
 
 // Solver drives one SMT solver process over a pipe.
 type Solver struct {
-	Kind      string // "z3", "z3-new", "cvc5"
+	Kind      string     // "z3", "z3-new", "cvc5"
 	TT        *TermTable // for compact definitions of single-variable terms
 	TimeoutMS int
 	Seed      int
